@@ -65,7 +65,9 @@ CHECKS = {
                 text="ASTEQ obligations: every member of LightNodeMixin is syntactically NodeMixin's member modulo the mangling "
                      "prefix/class name; the two isinstance guards are proved (SMT, from the real guard expressions) to be skips "
                      "for tree-node arguments; plus both families are verified against the same sidecar contracts "
-                     "(all C01/C02/C03/C16 obligations of both).",
+                     "(all C01/C02/C03/C16 obligations of both), the consumers (navigation, iterators, search, Walker, Resolver, "
+                     "RenderTree) are verified once against the navigation contracts both families satisfy, and no consumer names "
+                     "a mixin family or one of its mangled attributes (syntactic scan).",
                 tech="syntactic equivalence obligations + shared contracts discharged for both mixins",
                 note="Assumed: slot storage and dict storage agree on get/set/has of the two bookkeeping attributes; syntactically "
                      "equal bodies under equal attribute semantics are observationally equal. Differential lock-step execution "
